@@ -105,3 +105,93 @@ Proof.
     destruct HS as (_ & _ & K). destruct (d_stage s); try contradiction; lia.
 Qed.
 End Bound.
+
+(* ---- the value returned by a stopping stage IS stop_hint of the state it leaves ---- *)
+Section Ret.
+Variable bdec : list byte -> list byte -> option (list byte).
+
+Definition hint_ok (r : lst * outcome) : Prop :=
+  forall h, snd r = Stop h -> h = 0 \/ in_skip (d_stage (l_s (fst r))) = true \/ h = stop_hint (l_s (fst r)).
+
+Lemma ho_checkSuffix l sel : hint_ok (do_checkSuffix l sel).
+Proof. unfold hint_ok, do_checkSuffix. destruct (_ && _); cbn [snd]; intros h H; inversion H; auto. Qed.
+Lemma ho_storeSuffix l : d_stage (l_s l) = StoreSuffix -> hint_ok (do_storeSuffix l).
+Proof.
+  intros St. unfold do_storeSuffix. cbv zeta. destruct (_ <? _) eqn:E; [|apply ho_checkSuffix].
+  intros h H. cbn [snd] in H. inversion H. right. right. unfold stop_hint. ss. rewrite St. reflexivity.
+Qed.
+Lemma ho_getSuffix l : hint_ok (do_getSuffix l).
+Proof.
+  unfold do_getSuffix. cbv zeta. destruct (negb _); [intros h H; discriminate|].
+  destruct (_ =? 0); [intros h H; inversion H; auto|].
+  destruct (_ <? 4); [apply ho_storeSuffix; reflexivity|apply ho_checkSuffix].
+Qed.
+Lemma ho_bcc l crc : hint_ok (do_blockChecksum_check l crc).
+Proof. unfold hint_ok, do_blockChecksum_check. destruct (_ && _); cbn [snd]; intros h H; discriminate. Qed.
+Lemma ho_getBlockChecksum l : d_stage (l_s l) = GetBlockChecksum -> hint_ok (do_getBlockChecksum l).
+Proof.
+  intros St. unfold do_getBlockChecksum. cbv zeta. destruct (_ && _); [apply ho_bcc|].
+  destruct (_ <? 4); [|apply ho_bcc].
+  intros h H. cbn [snd] in H. inversion H. right. right. unfold stop_hint. ss. rewrite St. reflexivity.
+Qed.
+
+Lemma ho_flushOut o l : d_stage (l_s l) = FlushOut -> hint_ok (do_flushOut o l).
+Proof.
+  intros St. unfold hint_ok, do_flushOut. cbv zeta.
+  destruct (o_dstnull o).
+  - destruct (_ =? _); cbn [snd fst]; intros h H; inversion H. right. right. unfold stop_hint. rewrite St. reflexivity.
+  - match goal with |- context [upd_link ?s0 ?p0] => pose proof (upd_link_core s0 p0) as (_ & CS & _) end.
+    destruct (_ =? _); cbn [snd fst]; intros h H; inversion H. right. right. unfold stop_hint. ss. rewrite CS, St. reflexivity.
+Qed.
+
+Lemma ho_cblock o l sel : hint_ok (do_cblock bdec o l sel).
+Proof.
+  unfold do_cblock. cbv zeta.
+  destruct (fi_bcFlag (d_fi (l_s l)) =? 0).
+  - cbv iota beta. cbn [negb]. cbv iota.
+    destruct (match bdec _ _ with Some c => _ | None => None end) as [c|]; [|intros h H; discriminate].
+    destruct (_ <=? _); [intros h H; discriminate|]. apply ho_flushOut. reflexivity.
+  - cbv iota beta.
+    destruct (negb _); [intros h H; discriminate|].
+    destruct (match bdec _ _ with Some c => _ | None => None end) as [c|]; [|intros h H; discriminate].
+    destruct (_ <=? _); [intros h H; discriminate|]. apply ho_flushOut. reflexivity.
+Qed.
+
+Lemma ho_getCBlock o l : hint_ok (do_getCBlock bdec o l).
+Proof. unfold do_getCBlock. cbv zeta. destruct (_ <? _); [intros h H; discriminate|apply ho_cblock]. Qed.
+
+Lemma ho_storeCBlock o l : d_stage (l_s l) = StoreCBlock -> hint_ok (do_storeCBlock bdec o l).
+Proof.
+  intros St. unfold do_storeCBlock. cbv zeta. destruct (_ <? _); [|apply ho_cblock].
+  intros h H. cbn [snd] in H. inversion H. right. right. unfold stop_hint. ss. rewrite St. reflexivity.
+Qed.
+
+Lemma ho_copyDirect o l : d_stage (l_s l) = CopyDirect -> hint_ok (do_copyDirect o l).
+Proof.
+  intros St. unfold hint_ok, do_copyDirect. cbv zeta.
+  destruct (o_dstnull o); cbv iota beta.
+  - destruct (_ =? _); [destruct (_ =? 0); cbn [snd]; intros h H; discriminate|].
+    cbn [snd fst]. intros h H. inversion H. right. right. unfold stop_hint, bcsize. ss. rewrite St. reflexivity.
+  - match goal with |- context [upd_copy ?s0 ?p0 ?n0] => pose proof (upd_copy_core s0 p0 n0) as (CF & CS & _) end.
+    ss. destruct (_ =? _); [destruct (_ =? 0); cbn [snd]; intros h H; discriminate|].
+    cbn [snd fst]. intros h H. inversion H. right. right. unfold stop_hint, bcsize. ss. rewrite CS, St. reflexivity.
+Qed.
+
+Lemma Stop_inj a b : Stop a = Stop b -> a = b.
+Proof. congruence. Qed.
+Lemma ho_blockHeader l sel : hint_ok (do_blockHeader l sel).
+Proof.
+  unfold hint_ok, do_blockHeader. cbv zeta.
+  destruct (_ =? 0); [intros h H; discriminate|]. destruct (_ <? _); [intros h H; discriminate|].
+  destruct (negb _); [intros h H; discriminate|].
+  destruct (_ || _); cbn [snd fst]; intros h H; [|discriminate].
+  apply Stop_inj in H. right. right. unfold stop_hint. cbn [d_stage set_stage set_tmpInTarget d_tmpInTarget l_s with_s fst d_fi]. lia.
+Qed.
+Lemma ho_storeBlockHeader l : d_stage (l_s l) = StoreBlockHeader -> hint_ok (do_storeBlockHeader l).
+Proof.
+  intros St. unfold do_storeBlockHeader. cbv zeta. destruct (_ <? _); [|apply ho_blockHeader].
+  intros h H. cbn [snd] in H. inversion H. right. right. unfold stop_hint. ss. rewrite St. reflexivity.
+Qed.
+Lemma ho_getBlockHeader l : hint_ok (do_getBlockHeader l).
+Proof. unfold do_getBlockHeader. destruct (_ <=? _); [apply ho_blockHeader|apply ho_storeBlockHeader; reflexivity]. Qed.
+End Ret.
